@@ -44,5 +44,10 @@ ROWS = {
   "property-based testing (rapid) against the byte-offset model computed by a JPEG marker-stream writer",
   "Generated marker streams (up to 12 segments of all kinds before the DQT, up to two Exif and two XMP segments, payloads with 0xFF bytes and nested SOI/EOI, optional fill bytes) are scanned with generated callback behaviours (Exif: declared length in pieces / the library's reader / nil; XMP: nothing / prefix / all / all in odd pieces / nil); callback count and order, header fields incl. absolute TIFF offset, bytes readable inside each callback, nil error and the caller's reader position after the DQT are compared with the writer's model.",
   "Trusted: the marker-stream writer in internal/gen and its offset model. Precondition as in the property: the Exif callback consumes its declared length; >= 64 bytes follow the DQT."),
+
+ "C11": ("exploration",
+  "property-based testing (rapid) against the byte-offset model computed by an ISOBMFF box-tree writer (position-coded payloads)",
+  "Generated box trees (CR3 and HEIF style, depth up to 5, 32/64-bit sizes, full boxes, tiny last children) are read step by step through a caller-supplied bufio.Reader with recording callbacks; position after every top-level box, callback count/order, the exact file byte range each callback's reader yields, header fields and PreviewCR3 are compared with the writer's model; in the malformed variant one inner box declares a wrong size and whatever a callback reads must stay inside every enclosing box.",
+  "Trusted: the tree writer and its offset model in props/c11. The last top-level box is an mdat >= 64 bytes. Reads past a parent are observable through callbacks and the final position only (the bufio.Reader reads ahead by design)."),
 }
 NOT_APPLICABLE = {}
